@@ -344,6 +344,20 @@ def run_text_case(c):
     except BaseException as e:  # noqa
         out["outcome"] = exc_class(e)
         out["msg"] = (str(e) or "")[:200]
+    out["outcome2"] = ""
+    if out["outcome"] == "RTAMT" and spec is not None and c.get("mode") == "C14":
+        # the same object asked again with the text unchanged: a text that is not in the language stays rejected
+        signal.alarm(int(c.get("timeout", 5)))
+        try:
+            try:
+                spec.parse()
+                out["outcome2"] = "ok"
+            finally:
+                signal.alarm(0)
+        except Timeout:
+            out["outcome2"] = "timeout"
+        except BaseException as e:  # noqa
+            out["outcome2"] = exc_class(e)
     if out["outcome"] == "ok" and c.get("data"):
         signal.alarm(int(c.get("timeout", 5)))
         try:
